@@ -4,7 +4,7 @@ from genlib import *
 
 LEAN_MODULES = ["MpirProofs.Props.C07"]
 THEOREMS = ["Mpir.C07.red_preserves", "Mpir.C07.gcd_loop_correct", "Mpir.C07.gcd_loop_terminates",
-            "Mpir.C07.mpn_gcd_correct_partial", "Mpir.C07.mpn_gcdext_identity_partial", "Mpir.C07.gcd_1_spec", "Mpir.C07.gcdext_1_spec",
+            "Mpir.C07.mpn_gcd_correct_partial", "Mpir.C07.mpn_gcdext_identity_partial", "Mpir.C07.gcd_1_spec", "Mpir.C07.div1_div2_spec", "Mpir.C07.gcdext_1_spec",
             "Mpir.C07.mpz_gcd_spec", "Mpir.C07.mpz_gcdext_spec", "Mpir.C07.gcdext_unique", "Mpir.C07.invert_spec", "Mpir.C07.mpz_gcd_ui_spec", "Mpir.C07.lcm_spec",
             "Mpir.C07.jacobi_base_spec", "Mpir.C07.kronecker_spec",
             "Mpir.C07.kronecker_wrappers_spec", "Mpir.C07.mpz_jacobi_spec"]
